@@ -240,7 +240,7 @@ pub fn c03(args: Args) {
         "random histories of 20-200 writes on a file-backed replica (creates, renames, domain rename, member edits, delete, revive, purge_recycled, purge_tombstones, reindex, restarts) plus a second replica feeding conflict-producing replication; after every commit: every name/spn of a live entry resolves to that entry, names of dead entries resolve to nothing, single-term equality searches equal the scan; at the end of each history every idx_* table of the database file is compared with the same table after a full rebuild on a copy of the file; non-trivial = history with an accepted rename and one of {delete+revive, conflict, reindex}; distinct by full op list");
     run.assume("the rebuild runs the real Backend::reindex on a byte copy of the database taken while no transaction is open; id lists are decoded to plain id sets before comparison");
     let prof = Profile {
-        replicas_min: 1, replicas_max: 2, file_backed: true, ops_min: 20, ops_max: args.tier.pick(70, 200), prefill: 0, long_gaps_when_replicated: false, level: kanidmd_lib::constants::DOMAIN_TGT_LEVEL, unique_names: false, home_creates: false, skewed_quarters: 0, late_joiner: false,
+        replicas_min: 1, replicas_max: 2, file_backed: true, ops_min: 20, ops_max: args.tier.pick(70, 200), prefill: 0, long_gaps_when_replicated: false, level: kanidmd_lib::constants::DOMAIN_TGT_LEVEL, unique_names: false, home_creates: false, skewed_quarters: 0, late_joiner: false, revive_pairs: false,
         pop: Pop { persons: 4, services: 2, groups: 4, dyngroups: 0, oauths: 1, certs: 1, names: 5 },
         w: Weights { create: 30, create_pair: 2, rename: 16, domain_rename: 2, set_desc: 5, add_member: 12, rem_member: 5, set_manager: 4, delete: 10, revive: 7, purge_recycled: 3, purge_tombstones: 3,
             reindex: 3, restart: 2, ext_id: 10, advance_small: 3, advance_big: 4, repl: 8, abort: 3, ..Default::default() },
